@@ -12,7 +12,14 @@ package main
 //   - nBad goroutines keep sending BAD variants that share the very same first block but differ after the blank line:
 //     log-only (no cosignature at all), foreign cosigner, Ed25519-only, forged ML-DSA line, witness-only (when a
 //     mirror is configured: must never obtain the mirror's signature), the other history's checkpoint of the same size
-//     genuinely cosigned (the hash is not a subtree hash of THAT tree), the same tree under an un-cosigned size.
+//     genuinely cosigned (the hash is not a subtree hash of THAT tree), the same tree under an un-cosigned size;
+//   - and BAD variants whose FIRST BLOCK differs: the same range with a bogus hash, another range with a bogus hash, each
+//     under the cosigned checkpoint (422 alone) and under a log-only one (403 alone).
+//
+// EVERY 200 answer of the racy phase (the GOOD requests' included) has each of its subtree cosignature lines verified
+// with the public verifier over exactly (origin, start, end, the hash THAT request asked for): the value checked must be
+// the value signed. A line that does not verify is tried against the other senders' hashes ("signed a hash that was
+// never proven").
 //
 // Every variant is first sent alone (ordinary sub| lines, reproduced by the model). Every answer of the racy phase is
 // judged by the exact verdicts of mon_subsig / mon_subcosigned (judgeSub): a key signs only under a checkpoint it
@@ -26,6 +33,8 @@ import (
 	"sync"
 	"sync/atomic"
 	"time"
+
+	"filippo.io/torchwood"
 )
 
 type stressVariant struct {
@@ -71,6 +80,19 @@ func (g *gen) subStress(per time.Duration, nGood, nBad int) {
 				{name: "other-history-cosigned", r: mkr(g.B, t.n, goodSigs)},
 				{name: "uncosigned-size", r: mkr(g.A, t.n+1, good(kLogA))},
 			}
+			// first block differs: bogus hashes (same range / another valid range), cosigned and log-only checkpoint
+			bogus := func(name string, s2, e2 int64, sigs []sigSpec) *stressVariant {
+				bh := g.randHash()
+				_, p2 := g.A.subtree(t.n, s2, e2)
+				r := g.subReq(o, g.A, t.n, s2, e2, bh, p2, g.ckpt(o, g.A, t.n, sigs))
+				return &stressVariant{name: name, r: r}
+			}
+			s2, e2 := int64(0), int64(4)
+			if t.s == 0 {
+				s2, e2 = 4, 6
+			}
+			vs = append(vs, bogus("bogus-hash", t.s, t.e, goodSigs), bogus("bogus-hash-uncosigned", t.s, t.e, good(kLogA)),
+				bogus("other-range-bogus-hash", s2, e2, goodSigs), bogus("other-range-bogus-hash-uncosigned", s2, e2, good(kLogA)))
 			if cfg.mirror {
 				vs = append(vs, &stressVariant{name: "witness-only", r: mkr(g.A, t.n, good(kLogA, kW1, kW2))},
 					&stressVariant{name: "mirror-only", r: mkr(g.A, t.n, good(kLogA, kM))})
@@ -130,47 +152,79 @@ func (g *gen) subStress(per time.Duration, nGood, nBad int) {
 			if w.dead {
 				break
 			}
-			// verdicts
+			// verdicts: every distinct 200 answer is judged (all CPUs), signatures verified over the requested hash
+			type job struct {
+				v      *stressVariant
+				raw    string
+				a, c   bool
+				b, d   string
+			}
+			var jobs []*job
 			for _, v := range vs {
-				args := []string{hx([]byte(o)), fmt.Sprint(t.s), fmt.Sprint(t.e), fmt.Sprint(v.r.n), "stress", tag, v.name}
-				ok, why, ok2, why2 := true, "", true, ""
-				n200, verified := 0, 0
 				var keys []string
 				for k := range v.answers {
 					keys = append(keys, k)
 				}
 				sort.Strings(keys)
 				for _, k := range keys {
-					st, raw, _ := strings.Cut(k, "\x00")
-					if st != "200" {
-						if raw != "" && ok {
-							ok, why = false, "a refusal ("+st+") carries a signature line"
+					if st, raw, _ := strings.Cut(k, "\x00"); st == "200" {
+						jobs = append(jobs, &job{v: v, raw: raw})
+					}
+				}
+			}
+			var jw sync.WaitGroup
+			var next atomic.Int64
+			for c := 0; c < procs; c++ {
+				jw.Add(1)
+				go func() {
+					defer jw.Done()
+					for {
+						k := int(next.Add(1)) - 1
+						if k >= len(jobs) {
+							return
 						}
+						j := jobs[k]
+						j.a, j.b, j.c, j.d = w.judgeSub(j.v.r, j.raw, true)
+					}
+				}()
+			}
+			jw.Wait()
+			stats["stress_sub_answers_verified"] += len(jobs)
+			for _, v := range vs {
+				args := []string{hx([]byte(o)), fmt.Sprint(v.r.s), fmt.Sprint(v.r.e), fmt.Sprint(v.r.n), "stress", tag, v.name}
+				ok, why, ok2, why2 := true, "", true, ""
+				n200 := 0
+				for k, cnt := range v.answers {
+					st, raw, _ := strings.Cut(k, "\x00")
+					if st == "200" {
+						n200 += cnt
+					} else if raw != "" {
+						ok, why = false, "a refusal ("+st+") carries a signature line"
+					}
+				}
+				for _, j := range jobs {
+					if j.v != v {
 						continue
 					}
-					n200 += v.answers[k]
-					// (the signature of an answer is verified for every answer to a BAD variant and for a sample of the GOOD ones)
-					verify := v.name != "GOOD" || verified < 25
-					if verify {
-						verified++
+					if !j.a && ok {
+						ok, why = false, j.b
+						if strings.Contains(j.b, "does not verify with the public subtree verifier") {
+							why = w.neverProven(j.v, j.raw, vs)
+						}
 					}
-					a, b, c, d := w.judgeSub(v.r, raw, verify)
-					if !a && ok {
-						ok, why = false, b
-					}
-					if !c && ok2 {
-						ok2, why2 = false, d
+					if !j.c && ok2 {
+						ok2, why2 = false, j.d
 					}
 				}
 				ctx := ""
 				if !ok || !ok2 {
 					sg := func(r subReq) string { return r.note.abstract[strings.LastIndex(r.note.abstract, ":")+1:] }
 					ctx = fmt.Sprintf("; RACE (%s): request X = sign-subtree [%d,%d) hash %x + proof under checkpoint size %d root %x(%s) sigs=%s, variant %q, "+
-						"answered 200 in %d of its %d concurrent submissions (sent alone just before: see its sub line, refused or signed by fewer keys); "+
-						"in flight at the same time: request G with the SAME first block (range, hash, proof) under checkpoint size %d root %x(%s) sigs=%s (answered 200 alone), "+
+						"answered 200 in %d of its %d concurrent submissions (sent alone just before, see its sub line: GOOD is answered 200, every other variant is refused or signed by fewer keys); "+
+						"in flight at the same time: request G = sign-subtree [%d,%d) hash %x under checkpoint size %d root %x(%s) sigs=%s (answered 200 alone), "+
 						"sent by %d goroutines while %d goroutines cycle through the bad variants",
-						tag, t.s, t.e, sh[:4], v.r.n, v.r.root[:4], w.which(v.r.n, v.r.root), sg(v.r), v.name, n200, v.n,
-						vs[0].r.n, vs[0].r.root[:4], w.which(vs[0].r.n, vs[0].r.root), sg(vs[0].r), nGood, nBad)
+						tag, v.r.s, v.r.e, v.r.sh[:4], v.r.n, v.r.root[:4], w.which(v.r.n, v.r.root), sg(v.r), v.name, n200, v.n,
+						vs[0].r.s, vs[0].r.e, vs[0].r.sh[:4], vs[0].r.n, vs[0].r.root[:4], w.which(vs[0].r.n, vs[0].r.root), sg(vs[0].r), nGood, nBad)
 				}
 				if !ok {
 					why += ctx
@@ -186,4 +240,35 @@ func (g *gen) subStress(per time.Duration, nGood, nBad int) {
 		}
 		w.monConsistent()
 	}
+}
+
+// an answer to v carries a subtree cosignature that does not verify for the hash v asked for: whose hash is it?
+func (w *world) neverProven(v *stressVariant, raw string, vs []*stressVariant) string {
+	for _, l := range strings.SplitAfter(raw, "\n") {
+		name, hash, pok := parseSigLine(l)
+		if !pok {
+			continue
+		}
+		id := w.kr.idOf(name, hash)
+		if id != kW2 && id != kM {
+			continue
+		}
+		ver := w.kr.keys[id].verifier.(*torchwood.CosignatureVerifier)
+		if ver.VerifySubtree(v.r.origin, v.r.s, v.r.e, v.r.sh, []byte(l)) {
+			continue
+		}
+		whose := "it verifies for the hash of no sender of this stress"
+		for _, y := range vs {
+			if y != v && ver.VerifySubtree(v.r.origin, v.r.s, v.r.e, y.r.sh, []byte(l)) {
+				alone := "refused"
+				whose = fmt.Sprintf("it VERIFIES for (origin, %d, %d, hash %x) where %x is the hash sent by the concurrent request Y = variant %q (sign-subtree [%d,%d) hash %x under checkpoint size %d sigs=%s; %s when sent alone, see its sub line)",
+					v.r.s, v.r.e, y.r.sh[:4], y.r.sh[:4], y.name, y.r.s, y.r.e, y.r.sh[:4], y.r.n,
+					y.r.note.abstract[strings.LastIndex(y.r.note.abstract, ":")+1:], alone)
+				break
+			}
+		}
+		return fmt.Sprintf("SIGNED A HASH THAT WAS NEVER PROVEN: the 200 answer to request X (sign-subtree [%d,%d) hash %x, proof checked against checkpoint size %d) carries a subtree cosignature of key %d that does NOT verify (public verifier) over (origin, %d, %d, hash %x), the value that was checked; %s",
+			v.r.s, v.r.e, v.r.sh[:4], v.r.n, id, v.r.s, v.r.e, v.r.sh[:4], whose)
+	}
+	return "subtree signature does not verify with the public subtree verifier"
 }
